@@ -43,7 +43,8 @@ def plan(tier, seed):
 	fams = [('tern', dict(maxlen=8 if tier == 'quick' else 10)),
 	        ('bin', dict(lens=[12] if tier == 'quick' else [12, 16, 17, 18])),
 	        ('twomin', dict(ns=[17, 24, 33, 64, 100])),
-	        ('near', dict(maxlen=5 if tier == 'quick' else 6))]
+	        ('near', dict(maxlen=5 if tier == 'quick' else 6)),
+	        ('long', dict(ns=[1000, 4097] if tier == 'quick' else [1000, 4097, 50000]))]
 	for cpu in CPUS:
 		for fam, kw in fams:
 			nsh = 2 if tier == 'quick' else 6
@@ -67,6 +68,17 @@ def rows_of(fam, kw):
 	elif fam == 'bin':
 		for n in kw['lens']:
 			yield from itertools.product([0.25, 0.75], repeat=n)
+	elif fam == 'long':
+		# database-sized rows: 2..4 tied minima at structured positions (ends, middle, neighbours, around powers of two) in a row of larger values
+		for n in kw['ns']:
+			pos = sorted({0, 1, 2, n // 2 - 1, n // 2, 255, 256, 257, 1023, 1024, n - 3, n - 2, n - 1} & set(range(n)))
+			base = [0.5 + 0.25 * ((i * 7) % 3 == 0) for i in range(n)]
+			for m in (2, 3):
+				for combo in itertools.combinations(pos, m):
+					row = list(base)
+					for c in combo:
+						row[c] = 0.125
+					yield tuple(row)
 	elif fam == 'near':
 		# distinct float32 values closer together than any plausible rounding step (neighbouring floats, 1333/2000 vs 1335/2003, ...)
 		a = float(F32(0.6665))
@@ -171,7 +183,7 @@ def t_rows(cpu, fam, kw, shard, nshards):
 		if ri % nshards != shard:
 			continue
 		n = len(row)
-		for N in sorted({1, 2, 3, n, n + 5}):
+		for N in (sorted({1, 2, 3, n, n + 5}) if n <= 100 else [1, 3, 10, 50]):
 			got = check_row(sh, row, N, cpu)
 			h.update(repr((row, N, got)).encode())
 	sh.extra = dict(slice=[fam, shard, nshards], cpu=cpu, digest=h.hexdigest(), simd=sorted(f for f, v in feats.items() if v and f.startswith('AVX'))[:40])
